@@ -61,7 +61,7 @@ class C20(Prop):
                 c.update(op=rng.choice(['fnf', 'mp']))
             elif k == 'hstream':
                 c.update(count=rng.choice([0, 1, 3, 7]), error_at=rng.choice([None, None, 0, 2]), factory=rng.random() < 0.4, n0=rng.choice([1, 2, 4]),
-                         more=[rng.choice([1, 2, 3]) for _ in range(rng.randint(0, 4))])
+                         more=[rng.choice([1, 2, 3]) for _ in range(rng.randint(0, 4))], together=rng.random() < 0.35)
                 if c['factory']:
                     c['error_at'] = None
             elif k == 'honeway':
@@ -282,13 +282,21 @@ class C20(Prop):
 
         def elems():
             return [e[2].data[0] for e in t.sent if isinstance(e[2], F.PayloadFrame) and e[2].data]
-        await loop.settle()
-        trace.append([credit, len(elems())])
-        for n in case['more']:
-            t.deliver(engine.build_frame({'ty': 'REQUEST_N', 'sid': 1, 'n': n}).serialize())
-            credit += n
+        if case.get('together'):
+            # the grants arrive in one read, before the adapter's producer has run: several credit values are queued at once
+            for n in case['more']:
+                t.deliver(engine.build_frame({'ty': 'REQUEST_N', 'sid': 1, 'n': n}).serialize())
+                credit += n
             await loop.settle()
             trace.append([credit, len(elems())])
+        else:
+            await loop.settle()
+            trace.append([credit, len(elems())])
+            for n in case['more']:
+                t.deliver(engine.build_frame({'ty': 'REQUEST_N', 'sid': 1, 'n': n}).serialize())
+                credit += n
+                await loop.settle()
+                trace.append([credit, len(elems())])
         terms = [engine.simnet_tok(e) for e in t.sent if (isinstance(e[2], F.PayloadFrame) and e[2].flags_complete) or isinstance(e[2], F.ErrorFrame)]
         res = {'trace': trace, 'elems': elems(), 'asked': asked, 'terms': terms}
         await server.close()
@@ -333,7 +341,10 @@ class C20(Prop):
         if case['kind'] == 'cstream':
             return ['rxb %d %s' % (case['limit'], ' '.join(obs['model']))]
         if case['kind'] == 'hstream' and not case['factory'] and case['error_at'] is None:
-            ev = ['r%d' % case['n0'], 'q'] + [x for n in case['more'] for x in ('r%d' % n, 'q')]
+            if case.get('together'):
+                ev = ['r%d' % case['n0']] + ['r%d' % n for n in case['more']] + ['q']
+            else:
+                ev = ['r%d' % case['n0'], 'q'] + [x for n in case['more'] for x in ('r%d' % n, 'q')]
             return ['credit flagged=0 failing=0 count=%d %s' % (case['count'], ' '.join(ev))]
         return []
 
